@@ -75,11 +75,13 @@ func init() {
 				bs = append(bs, core.Batch{Name: fmt.Sprintf("immediate-restart-w%d", w), TimeoutS: 300,
 					Params: core.Params(c03Params{Kind: "immediate-restart", Workers: w, Cycles: tierPick(tier, 40000, 400000)})})
 			}
+			bs = append(bs, core.Batch{Name: "directed-G7-race", TimeoutS: 600, Race: true,
+				Params: core.Params(c03Params{Kind: "directed", Gate: "G7", Workers: 1, Rounds: tierPick(tier, 150, 1500)})})
 			bs = append(bs, core.Batch{Name: "first-start-race", TimeoutS: 600, Race: true,
 				Params: core.Params(c03Params{Kind: "first-start", Workers: 2, Cycles: tierPick(tier, 60, 400)})})
 			bs = append(bs, core.Batch{Name: "listen-and-serve", TimeoutS: 300,
 				Params: core.Params(c03Params{Kind: "listen", Workers: 4, Cycles: tierPick(tier, 12, 60)})})
-			for _, g := range []string{"G1", "G2", "G3-token", "G3-reset", "G3-event", "G3-reply", "G4", "G5", "G6", "control"} {
+			for _, g := range []string{"G1", "G2", "G3-token", "G3-reset", "G3-event", "G3-reply", "G4", "G5", "G6", "G7", "control"} {
 				for _, w := range []int{1, 3, 8} {
 					bs = append(bs, core.Batch{Name: fmt.Sprintf("directed-%s-w%d", g, w), TimeoutS: 300,
 						Params: core.Params(c03Params{Kind: "directed", Gate: g, Workers: w, Rounds: tierPick(tier, 12, 150)})})
@@ -1223,6 +1225,37 @@ func c03Directed(c *core.Ctx, p c03Params) {
 			if n := s.rig.C.Closes(); n != 1 {
 				c.Violation("C03/close-count", fmt.Sprintf("connection Close was called %d times", n), what)
 			}
+		case "G7":
+			// a submission parked between the started-check and the lock survives the whole
+			// Shutdown and is released at the moment the service is served again: it reads the
+			// worker queue under the lock while serve sets it up (watched by the race batch)
+			gate := sched.Arm("runWith.checked", func(arg interface{}) bool { g, _ := arg.(string); return g == "svc.m.gate" })
+			spawn("With", func() { sv.With("svc.m.gate", func(rs res.Resource) { s.body("with:gated", rs.Group()) }) })
+			if !gate.WaitArrived(10 * time.Second) {
+				gate.Release()
+				c.Inconclusive("gate runWith.checked never reached")
+				return
+			}
+			if err := s.rig.stop(); err != nil {
+				gate.Release()
+				c.Violation("C03/shutdown-error", "Shutdown returned: "+err.Error(), what)
+				return
+			}
+			go func() {
+				for i := 0; i < 50; i++ {
+					runtime.Gosched()
+				}
+				gate.Release()
+			}()
+			if err := s.rig.restart(); err != nil {
+				c.Violation("C03/restart-failed", "a stopped service could not be served again: "+err.Error(), what)
+				return
+			}
+			s.rig.C.NoGoID = true
+			producers.Wait()
+			c.Eval(1)
+			c.Obs("gates_parked", 1)
+			ok = s.shutdownAndCheck(what, p.Workers, done)
 		case "G6":
 			// Serve on a service that is being stopped
 			sgate := sched.Arm("close.flagged", nil)
